@@ -6,5 +6,5 @@ if [ -n "$VERIF_REPO" ] && [ "$VERIF_REPO" != "/repo" ]; then
   mkdir -p ../.cache/fuzzmod; sed "s#=> /repo#=> $VERIF_REPO#" go.mod > ../.cache/fuzzmod/go.mod; cp go.sum ../.cache/fuzzmod/go.sum; MF="-modfile=$(cd ..; pwd)/.cache/fuzzmod/go.mod"
 fi
 [ -f go.sum ] || cp /repo/go.sum go.sum
-GODEBUG=clobberfree=1 $VGO test $MF -tags verif -vet=off -run '^$' -fuzz "^$2\$" -fuzztime ${3}s ./$1/ 2>&1 | tail -15
+GODEBUG=clobberfree=1 $VGO test $MF -tags verif -vet=off -run '^$' -fuzz "^$2\$" -fuzztime ${3}s -fuzzminimizetime 5s ./$1/ 2>&1 | tail -15
 ls $1/testdata/fuzz/$2 2>/dev/null | head
